@@ -380,7 +380,6 @@ def runTasks {K V : Type} [DecidableEq K] (init : List (K × V)) (tasks : List (
 
 /-- skeleton of a table, built by the main goroutine before the first fan-out -/
 structure Skel (κ : Type) where
-  idx : Nat
   key : κ
   unit : Bytes
   assumption : Assump
@@ -388,37 +387,38 @@ structure Skel (κ : Type) where
   cols : List κ
   bcells : List ((κ × κ) × BCell (List Bytes) F64.Bits)
 
-def mkSkel (cfg : Cfg κ) (s : Sched) (idx : Nat) (k : κ) (bt : BTable κ (List Bytes) F64.Bits) : Skel κ :=
+def mkSkel (cfg : Cfg κ) (s : Sched) (k : κ) (bt : BTable κ (List Bytes) F64.Bits) : Skel κ :=
   let unit := cfg.unitOf k
-  { idx := idx, key := k, unit := unit, assumption := cfg.assume unit,
+  { key := k, unit := unit, assumption := cfg.assume unit,
     rows := sortKeys cfg.rankR (s.iter κ bt.rows),
     cols := sortKeys cfg.rankC (s.iter κ bt.cols),
     bcells := bt.cells }
 
 /-- a cell goroutine (`summarizeCell`): reads only builder data fixed before the fan-out (its own
-values and residue set — traversed in map order —, the baseline's values), writes its own slot -/
+values and residue set — traversed in map order —, the baseline's values), writes its own slot
+(the `*TableCell` of this table and cell key) -/
 def cellTask (cfg : Cfg κ) (s : Sched) (sk : Skel κ) (kc : (κ × κ) × BCell (List Bytes) F64.Bits) :
-    (Nat × (κ × κ)) × OCell κ :=
-  ((sk.idx, kc.1), mkCell cfg sk.assumption sk.cols.head? sk.bcells kc.1
+    (κ × (κ × κ)) × OCell κ :=
+  ((sk.key, kc.1), mkCell cfg sk.assumption sk.cols.head? sk.bcells kc.1
     { values := kc.2.values, residue := s.iter _ kc.2.residue })
 
 /-- the cells of a table as the second pass sees them (after the first `wg.Wait`) -/
-def cellsOf (cells : List ((Nat × (κ × κ)) × OCell κ)) (sk : Skel κ) : List ((κ × κ) × OCell κ) :=
-  sk.bcells.filterMap fun kc => (AL.lookup (sk.idx, kc.1) cells).map fun c => (kc.1, c)
+def cellsOf (cells : List ((κ × (κ × κ)) × OCell κ)) (sk : Skel κ) : List ((κ × κ) × OCell κ) :=
+  sk.bcells.filterMap fun kc => (AL.lookup (sk.key, kc.1) cells).map fun c => (kc.1, c)
 
 /-- a column goroutine (`summarizeCol`): reads the cells written before the first `wg.Wait`,
-writes its own slot -/
-def colTask (cfg : Cfg κ) (sk : Skel κ) (cells1 : List ((Nat × (κ × κ)) × OCell κ)) (ci : κ × Nat) :
-    (Nat × κ) × TSummary :=
+writes its own slot (the `*TableSummary` of this table and column) -/
+def colTask (cfg : Cfg κ) (sk : Skel κ) (cells1 : List ((κ × (κ × κ)) × OCell κ)) (ci : κ × Nat) :
+    (κ × κ) × TSummary :=
   let cells := cellsOf cells1 sk
   let nBase := match sk.cols.head? with
     | none => 0
     | some bc => (sk.rows.filter fun r => (AL.lookup (r, bc) cells).isSome).length
-  ((sk.idx, ci.1), summarizeCol cfg.orc sk.rows cells ci.1 nBase (ci.2 == 0))
+  ((sk.key, ci.1), summarizeCol cfg.orc sk.rows cells ci.1 nBase (ci.2 == 0))
 
 def toTablesSched (cfg : Cfg κ) (s : Sched) (b : Builder κ (List Bytes) F64.Bits) : List (OTable κ) :=
   let keys := sortKeys cfg.rankT (s.iter κ (AL.keys b))
-  let skels := keys.zipIdx.filterMap fun (k, i) => (AL.lookup k b).map (mkSkel cfg s i k)
+  let skels := keys.filterMap fun k => (AL.lookup k b).map (mkSkel cfg s k)
   -- first fan-out: one goroutine per cell, cells of a table visited in map order
   let tasks1 := skels.flatMap fun sk => (s.iter _ sk.bcells).map (cellTask cfg s sk)
   let cells1 := runTasks [] (s.taskOrder _ tasks1)
@@ -428,7 +428,7 @@ def toTablesSched (cfg : Cfg κ) (s : Sched) (b : Builder κ (List Bytes) F64.Bi
   skels.map fun sk =>
     { key := sk.key, unit := sk.unit, assumption := sk.assumption, rows := sk.rows, cols := sk.cols,
       cells := cellsOf cells1 sk,
-      summary := sk.cols.filterMap fun c => (AL.lookup (sk.idx, c) sums2).map fun t => (c, t) }
+      summary := sk.cols.filterMap fun c => (AL.lookup (sk.key, c) sums2).map fun t => (c, t) }
 
 end ToTables
 
